@@ -2,6 +2,7 @@ package rules
 
 import (
 	"fmt"
+	"sort"
 
 	"golang.org/x/tools/go/ssa"
 
@@ -129,9 +130,24 @@ func RuleDPushOnce(c *core.Ctx) {
 		})
 	}
 	// cpr.Seq stages: the per-item callback calls f(t) and pushes t
+	// (the callback is a closure of Seq itself or of a helper of the package that
+	// Seq reaches, e.g. a `stage` constructor)
+	seqFns := map[*ssa.Function]bool{}
+	var seqList []*ssa.Function
 	for _, top := range append(p.Instances(seq.Object()), seq) {
-		for _, fn := range core.WithAnon(top) {
-			if fn == top || len(fn.Params) != 1 {
+		for fn := range p.ReachLexical(top) {
+			if core.PkgPathOf(fn) == pkgCpr && !seqFns[fn] {
+				seqFns[fn] = true
+				seqList = append(seqList, fn)
+			}
+		}
+	}
+	sort.Slice(seqList, func(i, j int) bool { return seqList[i].String() < seqList[j].String() })
+	seenStage := map[string]bool{}
+	for _, top := range []int{0} {
+		_ = top
+		for _, fn := range seqList {
+			if fn.Parent() == nil || len(fn.Params) != 1 || seenStage[originName(fn)] {
 				continue
 			}
 			// a dynamic call of a captured function with the item as argument
@@ -151,6 +167,7 @@ func RuleDPushOnce(c *core.Ctx) {
 			if fcall == nil {
 				continue
 			}
+			seenStage[originName(fn)] = true
 			n++
 			key := originName(fn) + ":item is pushed once after f(item)"
 			ok2, why := pushOnceAfter(p, fn, fcall, fn.Params[0])
